@@ -121,8 +121,15 @@ impl<'a> SendTransactionsProofProcess<'a> {
             // Check extra hash for blocks
             let is_v1 = self.message.count_extra_fields() >= 2;
             let extensions = if is_v1 {
-                let message_v1 =
-                    packed::SendTransactionsProofV1Reader::new_unchecked(self.message.as_slice());
+                let message_v1 = match packed::SendTransactionsProofV1Reader::from_compatible_slice(
+                    self.message.as_slice(),
+                ) {
+                    Ok(message_v1) => message_v1,
+                    Err(_) => {
+                        // The extra fields are not covered by the check of the base message.
+                        return StatusCode::MalformedProtocolMessage.into();
+                    }
+                };
                 let uncle_hashes: Vec<_> = message_v1
                     .blocks_uncles_hash()
                     .iter()
